@@ -368,11 +368,19 @@ func (e *Exec) readAt(st *State, name string, ft types.Type, idx string) Val {
 	case KRef:
 		selT := e.sel(st, name, "Int", idx)
 		if c, ok := e.ldCache[selT]; ok {
-			return vRef(c).withT(ft)
+			r := vRef(c).withT(ft)
+			if _, isFn := ft.Underlying().(*types.Signature); isFn {
+				r.Origin = name
+			}
+			return r
 		}
 		t := e.S.Define("ld", "Int", selT)
 		e.ldCache[selT] = t
 		e.S.Assert(sx("<=", t, st.top))
+		if _, written := st.heap[name]; !written {
+			// never written since entry: a pre-existing object only refers to pre-existing objects
+			e.S.Assert(sImp(sx("<=", idx, "A0"), sx("<=", t, "A0")))
+		}
 		e.ptrTypeFact(t, ft)
 		if _, isFn := ft.Underlying().(*types.Signature); isFn {
 			r := vRef(t).withT(ft)
